@@ -20,6 +20,7 @@ import (
 	"encoding/xml"
 	"fmt"
 	"net/http"
+	"strings"
 
 	"github.com/elnormous/contenttype"
 	"github.com/goccy/go-json"
@@ -34,9 +35,16 @@ var supportedMediaTypes = []contenttype.MediaType{ //nolint:gochecknoglobals
 }
 
 func format(req *http.Request, body error) (contenttype.MediaType, []byte, error) {
-	mediaType, _, err := contenttype.GetAcceptableMediaType(req, supportedMediaTypes)
-	if err != nil {
-		return contenttype.MediaType{}, nil, err
+	mediaType := supportedMediaTypes[0]
+
+	// multiple Accept header lines are equivalent to a single one holding the comma separated values
+	if values := req.Header.Values("Accept"); len(values) != 0 {
+		var err error
+
+		mediaType, _, err = contenttype.GetAcceptableMediaTypeFromHeader(strings.Join(values, ","), supportedMediaTypes)
+		if err != nil {
+			return contenttype.MediaType{}, nil, err
+		}
 	}
 
 	// Format based on the accept content type
